@@ -56,7 +56,7 @@ func ParseFromSpec(s string) (*FromSpec, error) {
 	if len(params) == 0 {
 		return r, nil
 	}
-	for _, value := range strings.Split(params, ";") {
+	for _, value := range splitUnquoted(params, ';') {
 		kv, err := ParseGenericParam(value)
 		if err != nil {
 			return nil, err
